@@ -509,7 +509,65 @@ class _Walrus(ast.NodeTransformer):
         return self._stmt(node)
 
 
+class _Match(ast.NodeTransformer):
+    """`match subject:` with value / singleton / bare class / wildcard / capture / or-patterns (and guards) is the if/elif chain it abbreviates; a match
+    statement with sequence, mapping or class-with-arguments patterns is left as it is"""
+
+    def _test(self, pat, subj):
+        """(test expr or True, [prefix statements]) or None when the pattern is not a simple one"""
+        import copy as _copy
+        S = lambda: _copy.deepcopy(subj)
+        if isinstance(pat, ast.MatchValue):
+            return ast.Compare(left=S(), ops=[ast.Eq()], comparators=[pat.value]), []
+        if isinstance(pat, ast.MatchSingleton):
+            return ast.Compare(left=S(), ops=[ast.Is()], comparators=[ast.Constant(value=pat.value)]), []
+        if isinstance(pat, ast.MatchClass) and not pat.patterns and not pat.kwd_patterns:
+            return ast.Call(func=ast.Name(id='isinstance', ctx=ast.Load()), args=[S(), pat.cls], keywords=[]), []
+        if isinstance(pat, ast.MatchAs) and pat.pattern is None:
+            if pat.name is None:
+                return True, []
+            return True, [ast.Assign(targets=[ast.Name(id=pat.name, ctx=ast.Store())], value=S())]
+        if isinstance(pat, ast.MatchOr):
+            parts = [self._test(p, subj) for p in pat.patterns]
+            if any(p is None or p[1] or p[0] is True for p in parts):
+                return None
+            return ast.BoolOp(op=ast.Or(), values=[p[0] for p in parts]), []
+        return None
+
+    def visit_Match(self, node):
+        self.generic_visit(node)
+        subj = node.subject
+        pre = []
+        if not isinstance(subj, (ast.Name, ast.Constant)) and not (isinstance(subj, ast.Attribute) and isinstance(subj.value, ast.Name)):
+            pre = [ast.Assign(targets=[ast.Name(id='_match_subject', ctx=ast.Store())], value=subj)]
+            subj = ast.Name(id='_match_subject', ctx=ast.Load())
+        cases = []
+        for c in node.cases:
+            t = self._test(c.pattern, subj)
+            if t is None:
+                return node
+            test, prefix = t
+            if prefix and c.guard is not None:
+                return node              # a capture used by its own guard: keep the statement
+            if c.guard is not None:
+                test = c.guard if test is True else ast.BoolOp(op=ast.And(), values=[test, c.guard])
+            cases.append((test, prefix + c.body))
+        chain = []
+        for test, body in reversed(cases):
+            if test is True:
+                chain = body
+            else:
+                chain = [ast.If(test=test, body=body, orelse=chain)]
+        out = pre + (chain or [ast.Pass()])
+        for x in out:
+            ast.fix_missing_locations(ast.copy_location(x, node))
+        return out
+
+
 def normalize(tree):
+    if hasattr(ast, 'Match') and any(isinstance(n, ast.Match) for n in ast.walk(tree)):
+        tree = _Match().visit(tree)
+        ast.fix_missing_locations(tree)
     if any(isinstance(n, ast.NamedExpr) for n in ast.walk(tree)):
         tree = _Walrus().visit(tree)
         ast.fix_missing_locations(tree)
